@@ -90,6 +90,7 @@ type keyRec struct {
 	Acc   bool       `json:"acc"`
 	Rel   [][]string `json:"rel"`
 	Alias bool       `json:"alias"`
+	Obj   bool       `json:"obj"`
 	Man   bool       `json:"man"`
 	Sync  bool       `json:"sync"`
 	Spoke bool       `json:"spoke"`
@@ -448,6 +449,13 @@ func modeKeys(in, out, scratch string, seed int64, nExotic int) {
 			if fp != want {
 				dw["predicted_full_path"], dw["real_full_path"] = want, fp
 				e.drift.add("LocalBackend.validatePath-differs-from-LocalFSKeys.tla", dw)
+			}
+			// object operations: does validateObjectPath let the key through? (StatFile has no side effect)
+			_, statErr := b.StatFile(context.Background(), key)
+			objOK := statErr == nil || !strings.Contains(statErr.Error(), "invalid path")
+			if objOK != r.Obj {
+				dw["predicted_object_operations_accept"], dw["real_object_operations_accept"] = r.Obj, objOK
+				e.drift.add("LocalBackend.validateObjectPath-differs-from-LocalFSKeys.tla", dw)
 			}
 			man := raft.ValidateManifestPath(key) == nil
 			sync := edgesync.VerifLocalfsValidateSyncPath(key+".parquet") == nil
